@@ -144,6 +144,7 @@ off_t iwarr_sorted_find2(
         ub = nels - 1;
   char *elsptr = els;
   if (nels == 0) {
+    *found = false;
     return 0;
   }
   while (1) {
